@@ -411,7 +411,12 @@ def _parse_pkt_line_length(sizestr: bytes) -> int:
     """
     if len(sizestr) != 4 or not _HEX_DIGITS.issuperset(sizestr):
         raise GitProtocolError(f"Invalid pkt-line length prefix: {sizestr!r}")
-    return int(sizestr, 16)
+    size = int(sizestr, 16)
+    if size > MAX_PKT_LINE_DATA_LENGTH + 4:
+        # Longer than any pkt-line may be (git: "bad line length"). Such a
+        # frame could be read but not be written back by unread_pkt_line().
+        raise GitProtocolError(f"Invalid pkt-line length: {size} > 65520")
+    return size
 
 
 class Protocol:
